@@ -215,6 +215,12 @@ def eval_cond(cond, lab, atomize, ranks, bools, ignore=None):
     if ignore is not None and re.search(ignore, s):
         return None
     if isinstance(lab, bool):
+        nm0 = atomize(cond)
+        if nm0 is not None and nm0 in bools:
+            return bools[nm0] == lab
+        bv = eval_bool(cond, atomize, bools)
+        if bv is not None:
+            return bv == lab
         c = A.as_cmp(cond)
         if c is not None:
             op, a, b = c
@@ -335,3 +341,267 @@ def only_edge_blocks(fn, cond_re, truth):
 
 def short_ids(fns):
     return sorted(f.short for f in fns)
+
+
+# ----------------------------------------------------------------------------- expression rewriting
+
+
+def rebuild(e, f):
+    """Bottom-up copy of e in which every sub-expression x with f(x) != None is replaced by f(x) (no descent below it)."""
+    r = f(e)
+    if r is not None:
+        return r
+    k, a = e.k, e.a
+    rb = lambda x: rebuild(x, f)
+    if k in ("field", "variant", "cast"):
+        return E(k, rb(a[0]), a[1])
+    if k in ("try", "discr", "len", "trybranch"):
+        return E(k, rb(a[0]))
+    if k == "index":
+        return E(k, rb(a[0]), rb(a[1]) if isinstance(a[1], E) else a[1])
+    if k == "call":
+        return E(k, a[0], tuple(rb(x) for x in a[1]), *a[2:])
+    if k == "bin":
+        return E(k, a[0], rb(a[1]), rb(a[2]))
+    if k == "un":
+        return E(k, a[0], rb(a[1]))
+    if k == "agg":
+        return E(k, a[0], tuple((n, rb(v)) for n, v in a[1]))
+    if k == "phi":
+        return E(k, tuple(rb(x) for x in a[0]))
+    if k == "closure":
+        return E(k, a[0], tuple(rb(x) for x in a[1]), *a[2:])
+    return e
+
+
+def named(name):
+    """An opaque named atom."""
+    return E("const", name, {})
+
+
+def abbreviate(e, table):
+    """Replace sub-expressions by named atoms. table: list of (predicate(E)->bool | regex on str(E), name)."""
+    def f(x):
+        for pred, nm in table:
+            if callable(pred):
+                if pred(x):
+                    return named(nm)
+            elif x.k in ("call", "field", "try") and re.search(pred, str(x)):
+                return named(nm)
+        return None
+    return rebuild(e, f)
+
+
+def inline_closures(prog, e, depth=0):
+    """Rewrite Option::and_then(X, closure) / Option::map(X, closure) / Result::map(..) into the closure's value expression with its
+    parameter replaced by X (peeled of `?`) and captured variables by the captured expressions. Closures with more than one value
+    path are left alone."""
+    if depth > 6:
+        return e
+
+    def f(x):
+        if x.k == "call" and x.a[0] in ("Option::and_then", "Option::map", "Result::map", "Result::and_then") and len(x.a[1]) == 2 \
+                and x.a[1][1].k == "closure":
+            clo = x.a[1][1]
+            body = prog.fns.get(clo.a[0])
+            if body is None:
+                return None
+            vps = [p for p in paths(body) if not p.diverges and retkind(p.ret) == "value"]
+            if len(vps) != 1:
+                return None
+            arg = inline_closures(prog, x.a[1][0], depth + 1)
+            caps = dict(zip(clo.a[2], clo.a[1])) if len(clo.a) > 2 else {}
+            pname = body.locals[2][1] if body.arg_count >= 2 else None
+
+            def g(y):
+                if y.k == "upvar" and y.a[0] in caps:
+                    return inline_closures(prog, caps[y.a[0]], depth + 1)
+                if y.k == "param" and pname is not None and str(y) == pname:
+                    return arg
+                return None
+            return inline_closures(prog, rebuild(peel(vps[0].ret), g), depth + 1)
+        return None
+    return rebuild(e, f)
+
+
+# ----------------------------------------------------------------------------- reaching-definition expressions
+
+
+def expr_at(fn, op, bb, _depth=0, _stack=()):
+    """Value provenance of operand `op` as used by the TERMINATOR of block bb, built from the definitions that REACH that use
+    (classic reaching definitions on the normal CFG; a whole-local definition kills earlier ones). Unlike Fn.expr (flow-insensitive:
+    phi of every definition in the body) a mutable local re-assigned in another branch does not pollute the result; unlike
+    expr_on_path no path enumeration is needed. Several reaching definitions give a phi."""
+    if isinstance(op, dict):
+        return fn._const_expr(op)
+    n = op[0]
+    projs = list(op[1:])
+    if 0 < n <= fn.arg_count or _depth > 60:
+        e = fn.local_expr(n)
+        for p in projs:
+            e = fn._project(e, p)
+        return e
+    alld = fn.defs().get(n, [])
+    whole = [d for d in alld if d[2] == ()]
+    if not whole or (n, bb) in _stack:
+        return fn.expr(op)
+    def_blocks = set(d[0] for d in whole)
+    reaching = []
+    # a statement definition in bb itself (executed before the terminator) wins
+    local = [d for d in whole if d[0] == bb and d[1] != "call"]
+    if local:
+        reaching = [max(local, key=lambda d: d[1])]
+    else:
+        for d in whole:
+            others = def_blocks - {d[0]}
+            srcs = [t for t, _ in fn.succ(d[0])]
+            if d[0] == bb and d[1] == "call":
+                continue  # defined by this very terminator: not visible to its own arguments unless via a loop (ignored)
+            if bb in fn.reachable_from(srcs, avoid_blocks=tuple(sorted(others - {bb}))):
+                # if bb holds another statement-def it would have been `local`; so reaching
+                # several defs in the same block: keep the last one only
+                reaching.append(d)
+        byblock = {}
+        for d in reaching:
+            k = d[0]
+            if k not in byblock or (d[1] == "call") or (byblock[k][1] != "call" and d[1] > byblock[k][1]):
+                byblock[k] = d
+        reaching = list(byblock.values())
+    if not reaching:
+        return fn.expr(op)
+    alts = []
+    for (dbb, si, _p, rv) in reaching:
+        alts.append(_rv_at(fn, rv, dbb, _depth + 1, _stack + ((n, bb),)))
+    uniq, seen = [], set()
+    for a in alts:
+        s = str(a)
+        if s not in seen:
+            seen.add(s)
+            uniq.append(a)
+    e = uniq[0] if len(uniq) == 1 else E("phi", tuple(uniq))
+    for p in projs:
+        e = fn._project(e, p)
+    return e
+
+
+def _rv_at(fn, rv, bb, depth, stack):
+    from .model import CallSite, TRANSPARENT_CALLS, short_path
+    sub = lambda o: expr_at(fn, o, bb, depth, stack)
+    if isinstance(rv, CallSite):
+        args = tuple(sub(a) for a in rv.args)
+        name = rv.short
+        if name in TRANSPARENT_CALLS and len(args) == 1:
+            return args[0]
+        if name == "Try::branch" and len(args) == 1:
+            return E("trybranch", args[0])
+        return E("call", name, args, rv)
+    k = rv[0]
+    if k == "use":
+        return sub(rv[1])
+    if k in ("ref", "rawptr"):
+        return sub(rv[2])
+    if k == "bin":
+        return E("bin", rv[1], sub(rv[2]), sub(rv[3]))
+    if k == "un":
+        return E("un", rv[1], sub(rv[2]))
+    if k == "cast":
+        inner = sub(rv[2])
+        if rv[1].startswith("PointerCoercion") or rv[1] in ("PtrToPtr", "Transmute"):
+            return inner
+        return E("cast", inner, short_path(rv[3], 1))
+    if k == "discr":
+        return E("discr", sub(rv[1]))
+    if k == "agg" and rv[1] == "adt":
+        names = rv[3]
+        adt = short_path(rv[2], 1)
+        nm = adt if names[0] == adt else "%s::%s" % (adt, names[0])
+        return E("agg", nm, tuple((names[1:][i] if i < len(names) - 1 else str(i), sub(o)) for i, o in enumerate(rv[4])))
+    if k == "agg" and rv[1] != "closure":
+        return E("agg", rv[1], tuple((str(i), sub(o)) for i, o in enumerate(rv[4])))
+    return fn._rvalue_expr(rv, 0, ())
+
+
+def arg_at(cs, i):
+    """Reaching-definition expression of argument i of a call site."""
+    return expr_at(cs.fn, cs.args[i], cs.bb)
+
+
+def ret_at(fn, bb):
+    """Reaching-definition expression of the value assigned to the return place in block bb (bb assigns _0 by statement or call)."""
+    for (dbb, si, proj, rv) in fn.defs().get(0, []):
+        if dbb == bb and proj == ():
+            return _rv_at(fn, rv, bb, 0, ())
+    return None
+
+
+def expand_phi(e, limit=64):
+    """All phi-free variants of e (cartesian product over phi nodes, capped)."""
+    out = [e]
+    changed = True
+    while changed:
+        changed = False
+        nxt = []
+        for x in out:
+            tgt = None
+            for y in x.walk():
+                if y.k == "phi":
+                    tgt = y
+                    break
+            if tgt is None:
+                nxt.append(x)
+                continue
+            changed = True
+            for alt in tgt.a[0]:
+                nxt.append(rebuild(x, lambda z, t=tgt, a=alt: a if z is t else None))
+            if len(nxt) > limit:
+                raise NotLinear("too many phi alternatives")
+        out = nxt
+    return out
+
+
+def linforms(e, atom=None, **kw):
+    """Set of linear forms of e, one per phi alternative (as sorted item tuples)."""
+    out = set()
+    for x in expand_phi(e):
+        out.add(tuple(sorted(linform(x, atom, **kw).items())))
+    return out
+
+
+def eval_bool(e, atomize, bools):
+    """Value of a boolean expression built from named boolean atoms with Not / ^ / & / | / == / != ; None if not of that form."""
+    nm = atomize(e)
+    if nm is not None and nm in bools:
+        return bools[nm]
+    if e.k == "const" and e.a[0] in ("true", "false"):
+        return e.a[0] == "true"
+    if e.k == "un" and e.a[0] == "Not":
+        v = eval_bool(e.a[1], atomize, bools)
+        return None if v is None else (not v)
+    if e.k == "bin" and e.a[0] in ("BitXor", "BitAnd", "BitOr", "Eq", "Ne"):
+        a, b = eval_bool(e.a[1], atomize, bools), eval_bool(e.a[2], atomize, bools)
+        if a is None or b is None:
+            return None
+        return {"BitXor": a != b, "Ne": a != b, "Eq": a == b, "BitAnd": a and b, "BitOr": a or b}[e.a[0]]
+    return None
+
+
+def bool_guards_at(fn, bb):
+    """Like Fn.bool_guards, but each condition is rebuilt from the definitions that reach ITS switch (expr_at), so a
+    later re-assignment of a mutable local does not show up as a phi in an earlier guard."""
+    out = []
+    for s, _cond, allowed, labels in fn.guards(bb):
+        t = fn.blocks[s]["t"]
+        if t[4] != "bool":
+            continue
+        cond = expr_at(fn, t[1], s)
+        truth = None
+        if allowed == frozenset([0]):
+            truth = False
+        elif allowed == frozenset(["otherwise"]):
+            truth = True
+        if truth is None:
+            continue
+        while cond.k == "un" and cond.a[0] == "Not":
+            cond, truth = cond.a[1], not truth
+        out.append((cond, truth))
+    return out
